@@ -34,6 +34,23 @@ def budget(tier):
 
 @st.composite
 def _cases(draw, tier):
+    if pct(draw) < 6:
+        # solver parameters must not change the optimum: the same case is solved by real CBC
+        # with threads=None and with an explicit number of threads, on instances (too large to
+        # enumerate) whose LP relaxation is fractional: stability with ties on both sides
+        salt = draw(strategies.salts)
+        name = draw(st.sampled_from(['minsize', 'mincost', 'gre', 'minsqcost', 'maxsize', 'gen',
+                                     'lsb', 'mincostlsb']))
+        inst = draw(strategies.instances(dict(n1=12, n2=8, n2min=4, n3=5, lmax=5), two_sided=True,
+                                         cls=draw(st.sampled_from(['generic', 'two_agent',
+                                                                   'heavy_ties', 'shared_tight'])),
+                                         min_len=2))
+        opts = draw(strategies.option_sets(inst, min_crit=1, max_crit=1, names=[name],
+                                           twopl=True, stab=draw(st.sampled_from([True, True,
+                                                                                   False])),
+                                           pc=False))
+        return {'kind': 'params', 'inst': inst, 'opts': opts, 'choices': [], 'mode': 'cbc',
+                'salt': salt, 'threads': draw(st.sampled_from([1, 2, 4]))}
     mode = 'cbc' if pct(draw) < 9 else ('both' if tier == 'thorough' and pct(draw) < 10 else 'eb')
     salt = draw(strategies.salts)
     name = draw(st.sampled_from(strategies.CRIT_NAMES))
@@ -117,7 +134,36 @@ def check_optimum(c, criteria, facet_prefix=''):
     return feas, best, vec
 
 
+def run_params(case):
+    """Metamorphic: the value of the criterion must not depend on the threads parameter."""
+    from .. import refmodel
+    o = refmodel.Oracle(case['inst'], case['opts']['twopl'], case['opts']['pc'])
+    (name, args), = strategies.ordered_criteria(case['opts'])
+    vals = []
+    for threads in (None, case['threads']):
+        try:
+            run = solverio.Run(case['inst'], case['opts'], mode='cbc', threads=threads).solve()
+            p = run.parsed('short')
+        except Violation as v:
+            if _lp.owns_exceptions(v):
+                return Result(False, ['kind=params', 'skipped:exception'])
+            raise
+        if p['pulp_status'] != 'Optimal' or p['matching'] is None or not o.valid(p['matching']):
+            vals.append((p['pulp_status'], None))
+        else:
+            vals.append((p['pulp_status'], o.key(name, args, p['matching'])))
+    if vals[0] != vals[1]:
+        raise Violation('solver_parameter_changes_optimum:' + name,
+                        'criterion %s %r: solve(threads=None) gives status/value %r, '
+                        'solve(threads=%r) gives %r' % (name, args, vals[0], case['threads'],
+                                                        vals[1]))
+    return Result(vals[0][1] is not None, ['kind=params', 'crit=' + name,
+                                           'status=' + str(vals[0][0])])
+
+
 def run_case(case):
+    if case.get('kind') == 'params':
+        return run_params(case)
     try:
         c = _lp.run_lp(case, want_long=False)
     except Violation as v:
@@ -128,6 +174,8 @@ def run_case(case):
     (name, args), = c.criteria
     feas, best, vec = check_optimum(c, c.criteria)
     labels = _lp.base_labels(c, case) + ['args=%d' % len(args)]
+    if case.get('threads'):
+        labels.append('cbc_with_threads')
     if name in ('mincost', 'minsqcost', 'mincostlsb'):
         y = args[0] if len(args) > 0 else 1
         z = args[1] if len(args) > 1 else (1 if name == 'mincostlsb' else 0)
